@@ -788,6 +788,53 @@ fn exhaustive(cx: &mut Cx, depth: usize, qd: usize)
 	for (base, i, m, mx, out) in results {check_enum(cx, base, depth, qd, &[i], &m, &mx, out);}
 }
 
+/// `get` / `get_mut` with Below / Above: for an address INSIDE the located segment the slice starts at that address; for an
+/// address in a gap (the located segment lies wholly below / above it) the dictionary still has an answer (that run), so
+/// whatever the map returns it must be that run's range with a suffix of its bytes — and it must not panic.
+fn getgap(cx: &mut Cx, puts: &[(u32, Vec<u8>)], addr: u32, below: bool, mutable: bool)
+{
+	let input = format!("getgap {} ; {addr} {} {}", puts.iter().map(|(a, d)| format!("{a}:{}", hex(d))).collect::<Vec<_>>().join(","), if below {"b"} else {"a"}, if mutable {"mut"} else {"ref"});
+	let mut map = MemoryMap::new();
+	let mut sh: std::collections::BTreeMap<u32, u8> = std::collections::BTreeMap::new();
+	for (a, d) in puts
+	{
+		let _ = map.put(*a, d);
+		for (i, b) in d.iter().enumerate() {sh.insert(a + i as u32, *b);}
+	}
+	// the run of the dictionary at or below / at or above `addr`
+	let key = if below {sh.range(..=addr).next_back().map(|(k, _)| *k)} else {sh.range(addr..).next().map(|(k, _)| *k)};
+	let run = key.map(|k|
+	{
+		let mut lo = k;
+		while lo > 0 && sh.contains_key(&(lo - 1)) {lo -= 1;}
+		let mut hi = k;
+		while hi < u32::MAX && sh.contains_key(&(hi + 1)) {hi += 1;}
+		(lo, hi, (lo..=hi).map(|a| sh[&a]).collect::<Vec<u8>>())
+	});
+	let mode = if below {Search::Below} else {Search::Above};
+	let got = guarded(|| if mutable {map.get_mut(addr, mode).map(|(r, d)| (r.get_first(), r.get_last(), d.to_vec()))} else {map.get(addr, mode).map(|(r, d)| (r.get_first(), r.get_last(), d.to_vec()))});
+	cx.report.cases(1);
+	let inside = run.as_ref().is_some_and(|(lo, hi, _)| *lo <= addr && addr <= *hi);
+	cx.report.hit(if inside {"get below/above: address inside the located segment"} else if run.is_some() {"get below/above: address in a gap"} else {"get below/above: nothing there"});
+	match (got, run)
+	{
+		(Err(p), _) => cx.report.oracle_fail(format!("{input} panic{}", if inside {"-inside"} else {""}), format!("get{}({addr:#x}, {mode:?}) panicked: {}", if mutable {"_mut"} else {""}, &p[..p.len().min(160)])),
+		(Ok(None), None) => (),
+		(Ok(None), Some(r)) => cx.report.oracle_fail(input, format!("get({addr:#x}, {mode:?}) = None, the dictionary has the run {:08x}..={:08x}", r.0, r.1)),
+		(Ok(Some(g)), None) => cx.report.oracle_fail(input, format!("get({addr:#x}, {mode:?}) = {:08x}..={:08x}, the dictionary has nothing there", g.0, g.1)),
+		(Ok(Some((lo, hi, d))), Some((rlo, rhi, rd))) =>
+		{
+			let want_from = if inside {(addr - rlo) as usize} else {usize::MAX};
+			let ok_range = lo == rlo && hi == rhi;
+			let ok_data = if inside {d == rd[want_from..]} else {rd.ends_with(&d)};
+			if !ok_range || !ok_data
+			{
+				cx.report.oracle_fail(input, format!("get({addr:#x}, {mode:?}) = {lo:08x}..={hi:08x} {}, the dictionary's run is {rlo:08x}..={rhi:08x} {}", hex(&d), hex(&rd)));
+			}
+		},
+	}
+}
+
 /// a `put` whose data runs past 0xFFFFFFFF by a long way: rejected, map unchanged
 fn bigput(cx: &mut Cx, addr: u32, len: usize)
 {
@@ -852,6 +899,21 @@ evaluations = ops + queries executed on the real map; non-trivial = every histor
 				let out = real_enum(base, depth, qd, &pre);
 				check_enum(cx, base, depth, qd, &pre, &m, &mx, out);
 			},
+			["getgap", rest] =>
+			{
+				let parsed = (||
+				{
+					let (ps, q) = rest.split_once(" ; ")?;
+					let puts: Vec<(u32, Vec<u8>)> = ps.split(',').filter(|x| !x.is_empty()).map(|x| {let (a, h) = x.split_once(':')?; Some((a.parse().ok()?, unhex(h)?))}).collect::<Option<_>>()?;
+					let f: Vec<&str> = q.split(' ').collect();
+					Some((puts, f.first()?.parse::<u32>().ok()?, *f.get(1)? == "b", *f.get(2)? == "mut"))
+				})();
+				match parsed
+				{
+					Some((puts, a, below, mutable)) => getgap(cx, &puts, a, below, mutable),
+					None => cx.report.oracle_fail(input.clone(), "unrecognised replay input"),
+				}
+			},
 			["bigput", rest] =>
 			{
 				let f: Vec<&str> = rest.split(' ').collect();
@@ -883,6 +945,19 @@ evaluations = ops + queries executed on the real map; non-trivial = every histor
 
 	// data longer than the whole address space: must be rejected, map unchanged (the zeroed buffer is never touched by a
 	// correct `put`, so this costs nothing; lengths of 2^32 and more are only reachable on a 64-bit target)
+	// get / get_mut with Below / Above, inside segments and in gaps, at both ends of the address space
+	{
+		let maps: [Vec<(u32, Vec<u8>)>; 4] = [vec![(10, vec![1, 2, 3])], vec![(0, vec![9]), (5, vec![1, 2]), (9, vec![7, 7, 7])],
+			vec![(0xFFFF_FFFD, vec![1, 2, 3]), (0xFFFF_FFF0, vec![5])], vec![]];
+		for puts in maps.iter()
+		{
+			let mut probes: Vec<u32> = vec![0, 1, u32::MAX, u32::MAX - 1];
+			for (a, d) in puts {for k in [-2i64, -1, 0, 1, d.len() as i64 - 1, d.len() as i64, d.len() as i64 + 1] {if let Ok(p) = u32::try_from(*a as i64 + k) {probes.push(p);}}}
+			probes.sort(); probes.dedup();
+			for &p in &probes {for below in [true, false] {for mutable in [false, true] {getgap(cx, puts, p, below, mutable);}}}
+		}
+	}
+
 	if usize::BITS >= 64
 	{
 		for (addr, len) in [(0u32, (1usize << 32) + 1), (0x2000_0000, (1 << 32) + 1), (1, 1 << 32), (0xFFFF_FFFF, 1 << 32), (0x8000_0000, (1 << 31) + 1), (0xFFFF_FFFF, 2)]
